@@ -46,7 +46,9 @@ def probes():
     strs = ["two-sided", "greater", "less", "auto", "binom", "norm", "sidak", "bonferroni", "percentile", "basic",
             "bca", "bogus", "", "ab", "power", "effect_size", "rel_effect_size", "n_obs", "variant"]
     seqs = [[2, 3], (10,), [], (), [2, 1], [2, 2.0], [True], [0.1, float("nan")], [0.1, -0.2], (0.5, 0), [None],
-            [1000, 2000, "x"], {}, object()]
+            [1000, 2000, "x"], {}, object(),
+            # hashable values that compare (and hash) EQUAL to valid ones but are of another type
+            (2, 3), (2.0, 3.0), (10.0,), (True, 3)]
     return nums + strs + seqs
 
 
@@ -221,6 +223,7 @@ def main():
     mout = Driver("DriverUtils.lean").ask(mlines)
     mpos = spos = 0
     n_acc = n_rej = 0
+    verdicts = {}
     for ei, pi, nm, ns in index:
         ent, p, call, mrule, srule, attr = ents[ei]
         v = P[pi]
@@ -240,6 +243,7 @@ def main():
             real, obj = "ValueError", None
         except Exception as ex:  # noqa: BLE001
             real, obj = f"Other:{type(ex).__name__}", None
+        verdicts[(ei, pi)] = real
         chk.case((ent, p, to_wire(v)))
         chk.branch(f"real:{real.split(':')[0]}")
         n_acc += real == "ok"
@@ -265,6 +269,28 @@ def main():
                 chk.fail(f"{ent}: configuration option {p} holds {obj[1]!r} after setting {v!r}", dict(input=inp))
         if len(chk.cov["samples"]) < 6 and pi in (5, 25, 40):
             chk.sample(dict(**inp, real=real, model=model, in_domain=spec_in))
+    # acceptance is a function of the VALUE: the same grid once more, every parameter's probes in the opposite order (so that
+    # every invalid value now comes after other, equal-looking valid ones and vice versa) must give the same verdicts
+    changed = 0
+    for ei, pi, _, _ in reversed(index):
+        ent, p, call, mrule, srule, attr = ents[ei]
+        v = P[pi]
+        try:
+            call(v)
+            again = "ok"
+        except TypeError:
+            again = "TypeError"
+        except ValueError:
+            again = "ValueError"
+        except Exception as ex:  # noqa: BLE001
+            again = f"Other:{type(ex).__name__}"
+        if again != verdicts[(ei, pi)]:
+            changed += 1
+            if changed <= 5:
+                chk.fail(f"{ent}({p}={v!r}): the verdict for the same value depends on which values were validated before "
+                         f"({verdicts[(ei, pi)]} the first time, {again} later)",
+                         dict(input=dict(entry=ent, parameter=p, value=repr(v)), first=verdicts[(ei, pi)], later=again))
+    chk.branch(f"second-pass-verdicts-changed:{changed}")
     chk.cov["exhaustive"] = True
     chk.cov["grid"] = dict(entry_params=len(ents), probes=len(P), accepted=n_acc, rejected=n_rej)
     chk.cov["rule"] = ("exhaustive product: every (entry point, parameter) of the table x every probe value (each type "
